@@ -109,6 +109,7 @@ pub const W_HIGH: u8 = 2; // a bit at position >= 2^n is set
 pub const W_NUMVARS: u8 = 4; // num_vars() != n
 pub const W_NUMBITS: u8 = 8; // num_bits() != 2^n
 pub const W_PANIC: u8 = 16; // the call did not return (it unwound)
+pub const W_CHANGED: u8 = 32; // the returned Lut, kept alive by the caller, no longer holds the table it held when it was returned
 
 struct Rec {
     typ: u8, // b'L' | b'S'
@@ -119,6 +120,9 @@ struct Rec {
     blocks: Vec<u64>,
     slot: u32,
     rep: u32,
+    /// the returned object itself (dynamic type), kept alive until the run ends and handed to the main
+    /// thread, which re-reads it: a caller who keeps its draws must still see what it was given
+    keep: Option<Lut>,
 }
 
 enum Ev {
@@ -179,7 +183,12 @@ macro_rules! sdraw {
     }};
 }
 
-fn static_random(n: usize) -> (Vec<u64>, usize, usize) {
+fn static_random(n: usize) -> (Vec<u64>, usize, usize, Option<Lut>) {
+    let (b, nv, nb) = static_random_inner(n);
+    (b, nv, nb, None)
+}
+
+fn static_random_inner(n: usize) -> (Vec<u64>, usize, usize) {
     match n {
         0 => sdraw!(Lut0),
         1 => sdraw!(Lut1),
@@ -198,9 +207,9 @@ fn static_random(n: usize) -> (Vec<u64>, usize, usize) {
     }
 }
 
-fn dyn_random(n: usize) -> (Vec<u64>, usize, usize) {
+fn dyn_random(n: usize) -> (Vec<u64>, usize, usize, Option<Lut>) {
     let l = Lut::random(n);
-    (l.blocks().to_vec(), l.num_vars(), l.num_bits())
+    (l.blocks().to_vec(), l.num_vars(), l.num_bits(), Some(l))
 }
 
 fn one_draw(typ: u8, n: usize, slot: u32, rep: u32) -> Rec {
@@ -212,11 +221,11 @@ fn one_draw(typ: u8, n: usize, slot: u32, rep: u32) -> Rec {
     let s1 = stamp();
     fl.swap(0, Ordering::Relaxed);
     match r {
-        Ok((blocks, nv, nb)) => {
+        Ok((blocks, nv, nb, keep)) => {
             let warn = well_formed(n, &blocks, nv, nb);
-            Rec { typ, n: n as u8, s0, s1, warn, blocks, slot, rep }
+            Rec { typ, n: n as u8, s0, s1, warn, blocks, slot, rep, keep }
         }
-        Err(_) => Rec { typ, n: n as u8, s0, s1, warn: W_PANIC, blocks: Vec::new(), slot, rep },
+        Err(_) => Rec { typ, n: n as u8, s0, s1, warn: W_PANIC, blocks: Vec::new(), slot, rep, keep: None },
     }
 }
 
@@ -337,7 +346,12 @@ fn encode(buf: &mut Vec<u8>, t: usize, evs: &[Ev]) {
                 buf.push(b' ');
                 put_dec(buf, r.s1);
                 buf.push(b' ');
-                put_dec(buf, r.warn as u64);
+                // value stability, checked here = on the main thread, after the drawing thread was joined
+                let changed = match &r.keep {
+                    Some(l) => l.blocks() != &r.blocks[..],
+                    None => false,
+                };
+                put_dec(buf, (r.warn | if changed { W_CHANGED } else { 0 }) as u64);
                 buf.push(b' ');
                 if r.blocks.is_empty() {
                     buf.push(b'-');
